@@ -14,12 +14,12 @@ RULE = ("transitions = (registry before, call, outcome, registry after, get_metr
 # pool: variable -> (key, slot, dims, constant value)
 POOL = {
     "k1c1": ("K1", "K1c", ("d1",), 2.0), "k1c2": ("K1", "K1c", ("d1",), 3.0),
-    "k1l1": ("K1", "K1l", ("d2",), 5.0), "k1l2": ("K1", "K1l", ("d2",), 7.0),
+    "k1l1": ("K1", "K1l", ("d2",), 5.0), "k1l2": ("K1", "K1l", ("d2",), 7.0), "k1o1": ("K1", "K1o", ("d5",), 23.0),
     "k2c1": ("K2", "K2c", ("d1", "d3"), 11.0), "k2c2": ("K2", "K2c", ("d3", "d1"), 13.0),
     "k2l1": ("K2", "K2l", ("d2", "d3"), 17.0), "k2l2": ("K2", "K2l", ("d2", "d3"), 19.0),
 }
 KEYS = {"K1": ("a1",), "K2": ("a1", "a2")}
-SLOT_DIMS = {"K1c": ("d1",), "K1l": ("d2",), "K2c": ("d1", "d3"), "K2l": ("d2", "d3")}
+SLOT_DIMS = {"K1c": ("d1",), "K1l": ("d2",), "K1o": ("d5",), "K2c": ("d1", "d3"), "K2l": ("d2", "d3")}
 N = 3
 
 
@@ -28,10 +28,10 @@ def calls():
     for k in KEYS:
         vs = [v for v in POOL if POOL[v][0] == k]
         lists = [[v] for v in vs] + [[v, w] for v in vs for w in vs if POOL[v][1] != POOL[w][1]]
+        lists += [[u, v, w] for u in vs for v in vs for w in vs if len({POOL[u][1], POOL[v][1], POOL[w][1]}) == 3]
         for l in lists:
             for ow in (False, True):
                 out.append({"k": k, "vs": l, "ow": ow})
-    # three variables in one call cannot be at pairwise different positions with two slots per key
     return out
 
 
@@ -40,9 +40,9 @@ def make_ds():
     import xarray as xr
 
     ds = xr.Dataset(coords={"d1": ("d1", np.arange(N) + 0.5), "d2": ("d2", np.arange(N) * 1.0),
-                            "d3": ("d3", np.arange(N) + 0.5), "d4": ("d4", np.arange(N) * 1.0)})
+                            "d3": ("d3", np.arange(N) + 0.5), "d4": ("d4", np.arange(N) * 1.0), "d5": ("d5", np.arange(N + 1) * 1.0)})
     for v, (k, slot, dims, val) in POOL.items():
-        ds[v] = xr.DataArray(np.full([N] * len(dims), val), dims=dims)
+        ds[v] = xr.DataArray(np.full([N + 1 if d == "d5" else N for d in dims], val), dims=dims)
     return ds
 
 
@@ -67,7 +67,7 @@ def run_history(history, last_via_ctor_first=False):
     import xgcm
 
     ds = make_ds()
-    coords = {"a1": {"center": "d1", "left": "d2"}, "a2": {"center": "d3", "left": "d4"}}
+    coords = {"a1": {"center": "d1", "left": "d2", "outer": "d5"}, "a2": {"center": "d3", "left": "d4"}}
     grid = None
     rec = None
     for step, call in enumerate(history):
@@ -94,7 +94,7 @@ def run_history(history, last_via_ctor_first=False):
     vals = {POOL[v][3]: v for v in POOL}
     for slot, dims in SLOT_DIMS.items():
         key = slot[:2]
-        arr = xr.DataArray(np.zeros([N] * len(dims)), dims=dims)
+        arr = xr.DataArray(np.zeros([N + 1 if d == "d5" else N for d in dims]), dims=dims)
         try:
             with warnings.catch_warnings(record=True) as w:
                 warnings.simplefilter("always")
@@ -108,6 +108,9 @@ def run_history(history, last_via_ctor_first=False):
                 gm.append([key, slot, "product", "none"])
         except KeyError:
             gm.append([key, slot, "none", "none"])
+        except NotImplementedError:
+            # the only registered variables sit at a position from which no shift to this one is defined (left -> outer)
+            gm.append([key, slot, "undefined-shift", "none"])
         except Exception as ex:
             gm.append([key, slot, "error:" + type(ex).__name__, "none"])
     rec["gm"] = gm
@@ -131,7 +134,7 @@ def classify(rec, clauses):
 def run(ctx):
     thorough = ctx.tier == "thorough"
     depth = 4 if thorough else 3
-    ctx.mc("MC_Metrics", "MC_Metrics.cfg", coverage=True)
+    ctx.mc("MC_Metrics", "MC_Metrics_thorough.cfg" if thorough else "MC_Metrics.cfg", coverage=True)
     allcalls = calls()
     pool_list = [[v, POOL[v][0], POOL[v][1]] for v in sorted(POOL)]
     # breadth-first over the implementation's registry states
@@ -166,7 +169,7 @@ def run(ctx):
                 seen[sk] = hist + [c]
                 new[sk] = hist + [c]
         frontier = new
-        cap = 2000 if thorough else (40 if d == depth - 2 else 400)
+        cap = 1500 if thorough else (15 if d == depth - 2 else 40)
         if len(frontier) > cap:
             # the next level is explored from a sample of the new states (always the case for the last quick level;
             # otherwise only when an implementation makes the registry grow without bound)
